@@ -144,6 +144,22 @@ CHECKS = {
         design_ref="DESIGN.md section 4 C08",
         note="Trusted: Coq kernel (no axioms); the dedicated extractor tools/units/c08_units.py (generic control flow + per-function expression table, fails closed) and its PRELUDE, validated each run against the running Python on every dim-kind pair of shapes up to rank 2, rank-1 triples and random rank<=3 tuples; hand models refresh/loosen/is_scalar_const tied differentially on small onnx_ir graphs; onnx2coq; onnxruntime 1.30 CPU as run-time reference; the transcription of the ONNX shape rules in Annot.rule_on. The programs quantifier is SAMPLED for the per-export part. Not observed at run time: If/Scan bodies and nesting deeper than one Loop; the dtype side of _copy_shape_dtype/_maybe_promote_value_to_double is validated at run time only. Known findings: JAX2ONNX_DYNAMIC_DIM_SENTINEL used as one dim_param for different data-dependent extents, explicit float32 cast under enable_double_precision (output declared DOUBLE, computed FLOAT). Full-registry scan (3169 exports, 62k values) found nothing else.",
         technique="Rocq proofs over auto-translated annotation helpers (dedicated AST->Gallina extractor) + proved boolean checker run by vm_compute on real exports + onnxruntime observation of every annotated value under several symbol bindings + before/after snapshots of the real post-processing"),
+    "C11": dict(
+        category="proof",
+        text="Proved validator run on real exports at every opset (translation validation per export) + finite proofs over translated code: the operator schemas of the INSTALLED onnx (all versions) are dumped as data on every run; "
+             "Opset.opset_ok (Gallina) checks every node of every graph/nested body/function body of a converted real export: domain imported, the schema selected by the declared opset "
+             "(greatest since_version <= opset) exists, is not deprecated, arity in range, attribute names among the schema's, function calls fit the function signature, function imports agree with the model; "
+             "Coq proves opset_ok sound against the declarative node_conforms (incl. reachability of nested bodies). For opsets 21..27 real exports (registry spread + nested control-flow/function programs + opset-sensitive programs) "
+             "are evaluated inside Coq by vm_compute, cross-checked by onnx.checker(full_check), onnxruntime load and numeric agreement with the default-opset export. Finite proofs over code translated from /repo each run: "
+             "for every opset in [13,27] and all 10 reductions the `opset < since` branch picks exactly the axes form the schema has and the emitted node fits it; the Swish rewrite guard is sound and exact w.r.t. the schema table. "
+             "Opsets 13..20 are explored (thorough) and reported without a claim.",
+        design_ref="DESIGN.md section 4 C11",
+        note="Trusted: Coq kernel (no axioms), the onnx.defs dump (data), tools/onnx2coq.py + Onnx.v (converter; payloads/value_info dropped), AST extraction of the reduction table/branch and Swish guard (fail closed). "
+             "The programs quantifier is SAMPLED for the per-export part. Arity = list lengths; per-position optionality, types and attribute values are left to onnx.checker/ORT cross-checks; numerics tested on one seeded input per program with ORT graph optimisations off "
+             "(ORT 1.30 loads opsets <= 26). The Coq verdict is compared per model with an independent python recomputation over onnx.defs. "
+             "Known findings (unchanged tree): CumProd and BitCast (both introduced in opset 26) are emitted at every requested opset 21..25 without an error (10 keys opset-missing-op:{CumProd,BitCast}@{21..25}); "
+             "whole-registry survey (3137 cases at opsets 21/24/27) shows no other schema-level violation.",
+        technique="Rocq: proved boolean validator over a model AST, run by vm_compute on real exports at every opset; finite vm_compute proofs lifted with forallb_forall over tables translated from source and dumped from the installed library; onnx.checker / onnxruntime cross-checks"),
 }
 
 NOT_YET = {}
